@@ -228,7 +228,7 @@ ASSUME = [
 ]
 
 
-def trace_check(pid, tier, seed, scs, mc_stats=None, extra_cov=None, t0=None):
+def trace_check(pid, tier, seed, scs, mc_stats=None, extra_cov=None, t0=None, extra_violations=0):
     """the common tail of a check: validate scenarios, classify, print verdict lines, evidence.
     returns exit code"""
     t0 = t0 or time.time()
@@ -288,7 +288,7 @@ def trace_check(pid, tier, seed, scs, mc_stats=None, extra_cov=None, t0=None):
     }
     if extra_cov:
         cov.update(extra_cov)
-    write_evidence(pid, tier, seed, cov, time.time() - t0, len(viol), ASSUME)
+    write_evidence(pid, tier, seed, cov, time.time() - t0, len(viol) + extra_violations, ASSUME)
     print(f"{pid} {tier} seed={seed}: {len(traces)} traces, {cov['trace_events']} events, "
           f"{nchk} comparisons ok, {unch} unchecked, {len(viol)} violating scenarios, "
           f"{time.time() - t0:.1f}s")
